@@ -302,6 +302,9 @@ def check_main(engine, prop, tiers, argv=None):
     results = lanes.sweep(engine.execute, make_arg, range(args.first, args.first + nruns), budget_s=budget)
     wall_sweep = time.monotonic() - t0
     run_wall = sorted(r.get("wall_s", 0) for r in results.values())
+    if os.environ.get("VERIF_SLOWEST"):
+        for i_, r_ in sorted(results.items(), key=lambda kv: -kv[1].get("wall_s", 0))[: int(os.environ["VERIF_SLOWEST"])]:
+            print(f"# slow run {i_}: {r_.get('wall_s', 0):.1f}s outcome={r_.get('outcome')} decisions={r_.get('stats', {}).get('decisions')} tasks={r_.get('stats', {}).get('tasks')}")
     if run_wall:
         print(f"# sweep: {len(results)} runs in {wall_sweep:.1f}s; per-run wall median {run_wall[len(run_wall)//2]:.2f}s p90 {run_wall[int(len(run_wall)*0.9)]:.2f}s max {run_wall[-1]:.2f}s sum {sum(run_wall):.0f}s")
         sys.stdout.flush()
